@@ -1,4 +1,8 @@
-"""Per-property configuration of bin/check."""
+"""Per-property configuration of bin/check: one JSON file per property in bin/props.d/
+({"props": {...}, "texts": {...}}), so that parallel work does not conflict."""
+import glob
+import json
+import os
 
 COMMON_TRUSTED = [
     "Lean 4.33.0 kernel (thorough tier: re-checked with leanchecker)",
@@ -7,39 +11,11 @@ COMMON_TRUSTED = [
     "corr harness (harness/cmd/corr) and Lean driver codec (lean/Driver): correspondence and canonicalisation",
 ]
 
-PROPS = {
-    "C15": {
-        "lean": ["UgoVerif.Props.C15"],
-        "gen": ["Numeric.lean", "NumericSimp.lean"],
-        "streams": ["ops"],
-        "required_theorems": ["equal_comm", "neq_not_eq", "binop_no_panic", "trichotomy",
-                              "le_iff_lt_or_eq", "lt_flip"],
-        "trusted": [
-            "hand model Model/Ops.lean (Array/Map Equal and BinaryOp recursion, dispatch on the left operand) tied by stream `ops`",
-            "FloatOps: float + - * / and int->float conversions are parameters; theorems hold for every instance",
-        ],
-        "assumptions": [
-            "IEEE-754 comparison is the bit-pattern definition Go.feq/flt/fle (validated against Go on the boundary pool by stream `ops`)",
-            "user-defined Object implementations, *SyncMap and *RuntimeError are outside the modelled value set",
-            "trichotomy assumes int/uint->float conversions never produce NaN (FloatOps.ConvNoNaN)",
-        ],
-    },
-    "C06": {
-        "lean": ["UgoVerif.Props.C06"],
-        "gen": [],
-        "streams": ["vmfail", "vmtrace"],
-        "required_theorems": ["step_VInv", "loop_VInv", "throw_fuel_adequate", "recovery_total",
-                              "delivered_or_returned", "Run_no_panic", "reusable"],
-        "trusted": [
-            "hand model UgoVerif/VM/{Types,Base,Step,Run}.lean of vm.go (every Go index/slice/nil-dereference/assertion an explicit panic branch keeping the partial state), tied to the implementation by the lock-step streams `vmtrace` and `vmfail` (real compiler's bytecode, H1 trace hook: frameIndex, ip, sp, #handlers, opcode per instruction)",
-            "Std.Do (mvcgen) Hoare-triple framework of the Lean distribution: proofs are kernel-checked terms, only the standard axioms occur",
-        ],
-        "assumptions": [
-            "Go fatal errors (real goroutine-stack exhaustion, out of memory) and panics on goroutines started by callbacks are outside Run and outside the model",
-            "host objects (ugo.Function, user Object implementations), builtins other than len/typeName/append/:makeArray, STOREMODULE of containers, string iteration and multi-key map iteration are `unsupported` in the model: for them the recovery path is covered by the theorems (a panic at ANY point leaves a VInv state) and the behaviour only by the vmfail oracle (panicking Go callbacks, nil results, Invoker)",
-            "the trace bookkeeping of throw (getSourcePos, SourcePos, addTrace, debugStack, fmt.Errorf) has no panic site and is not modelled",
-            "MainWF (NumLocals <= 2048, NumParams <= NumLocals for the main function) is what the compiler guarantees; hand-made bytecode violating it panics in initLocals before recover is armed",
-        ],
-        "partial": [],
-    },
-}
+_D = os.path.join(os.path.dirname(os.path.abspath(__file__)), "props.d")
+PROPS = {}
+TEXTS = {}
+for _f in sorted(glob.glob(os.path.join(_D, "*.json"))):
+    _pid = os.path.basename(_f)[:-5]
+    _j = json.load(open(_f))
+    PROPS[_pid] = _j["props"]
+    TEXTS[_pid] = _j["texts"]
